@@ -7,8 +7,9 @@ def tu_check(tu):
     a = cg.index_guard(tu)
     b = cg.cursor_exc(tu)
     c = cg.next_null(tu)
-    return dict(findings=a["findings"] + b["findings"] + c["findings"],
-                stats={"index_uses": a["uses"], "cursor_const_stores": a["stores"],
+    d = cg.seek_validates(tu)
+    return dict(findings=a["findings"] + b["findings"] + c["findings"] + d["findings"],
+                stats={"index_uses": a["uses"] + d["n"], "cursor_const_stores": a["stores"],
                        "raise_sites": b["n"], "next_loads": c["loads"]})
 
 
@@ -22,7 +23,9 @@ def run(tier="quick", seed=0, use_cache=True):
         "field that survives calls into Python (BTreeItems.currentoffset, "
         "SetIteration.position, a sequence index) is dominated by a bounds "
         "test against that bucket's current len whose failing edge cannot "
-        "reach the use (or follows a successful BTreeItems_seek); constants "
+        "reach the use (or follows a successful BTreeItems_seek, which itself "
+        "commits a finger position only after testing 0 <= offset < len "
+        "against the current len of that very bucket); constants "
         "stored into such fields are ones the consumers' guards catch; the "
         "exceptions raised on a failed test are RuntimeError/IndexError only; "
         "pointers loaded from a leaf's next link are NULL-tested before "
